@@ -69,6 +69,40 @@ def check(an, rep, tier):
                         continue
                     degs = [(c.deg or {}).get('v', Fraction(0))
                             if c.deg is not None else None for c in rv.items]
+                    alts = [c.deg_alt for c in rv.items]
+                    if any(x is None for x in degs) and all(
+                            (c.deg is not None) or c.deg_alt
+                            for c in rv.items):
+                        # some cores were filled on a path that depends on an
+                        # undecided test of the data: the alternatives of one
+                        # test are taken together
+                        n_alt = max(len(a_) for a_ in alts if a_)
+                        tots = []
+                        for k_ in range(n_alt):
+                            t_ = Fraction(0)
+                            for c in rv.items:
+                                if c.deg is not None:
+                                    t_ += c.deg.get('v', Fraction(0))
+                                else:
+                                    a_ = c.deg_alt[min(k_, len(c.deg_alt) - 1)]
+                                    t_ += a_.get('v', Fraction(0))
+                            tots.append(t_)
+                        bad = [t_ for t_ in tots if t_ != 1]
+                        # NOT a violation: the alternatives come from a test
+                        # the analysis cannot decide, and a branch taken only
+                        # for a special value (v == 0) legitimately has another
+                        # degree.  It stays undecided; the per-function floor
+                        # below then reports that the degree is no longer
+                        # established (exit 2).
+                        rep.add('U-deg', q, 'degree of v over the cores, return '
+                                'path %d at d=%d' % (j, r.d),
+                                'unknown' if bad else 'ok',
+                                '' if not bad else 'depending on a test of '
+                                'the data that is not decided by the '
+                                'magnitude case the value enters the cores '
+                                'with total degree %s' %
+                                sorted(set(map(str, tots))))
+                        continue
                     if any(x is None for x in degs):
                         rep.unknown('U-deg', q, 'degree of v, path %d at d=%d'
                                     % (j, r.d), 'not typed: %s' % degs)
@@ -230,6 +264,13 @@ def check(an, rep, tier):
                 'ok' if pv in ('seeded', 'param') else 'violation',
                 'receiver %s (%s)' % (txt, pv))
     rep.floor('S-ret', 20, 'constructor results')
+    for q_ in ('tensors.const', 'tensors.delta'):
+        have = rep.count(rule='U-deg', status='ok', where=q_) + \
+            rep.count(rule='U-deg', status='violation', where=q_)
+        if have < len(ds):
+            rep.error('%s: the degree of v is established on %d return paths '
+                      'only (%d expected: one per d)'
+                      % (q_, have, len(ds)))
     rep.floor('U-deg', 6, 'value degrees')
     rep.floor('T-pattern', 3, 'poly cores')
     rep.floor('S-reshape', 1, 'random core cuts')
